@@ -22,8 +22,10 @@ import time
 ROOT = os.path.dirname(os.path.dirname(os.path.abspath(__file__)))
 SPEC = os.path.join(ROOT, "spec")
 OUT = os.path.join(ROOT, "out")
+if os.environ.get("VERIF_SCRATCH_OUT"):       # seeded/try.sh: a run against a modified scratch tree writes its replays and evidence elsewhere
+    OUT = os.path.join(os.environ["VERIF_SCRATCH_OUT"], "out")
 HARNESS = os.path.join(ROOT, "harness")
-EVIDENCE = os.path.join(ROOT, "evidence")
+EVIDENCE = os.path.join(ROOT, "evidence") if not os.environ.get("VERIF_SCRATCH_OUT") else os.path.join(os.environ["VERIF_SCRATCH_OUT"], "evidence")
 KNOWN = os.path.join(ROOT, "known_findings.txt")
 REPO = os.environ.get("VERIF_REPO", "/repo")
 
@@ -152,14 +154,17 @@ class Run:
             lines = open(tf).readlines() if os.path.exists(tf) else []
             if os.path.exists(tf):
                 os.unlink(tf)
+            # "marker" lines only say which behaviour (group) a driver was about to run; they are not part of the trace
+            marked = lines
+            lines = [l for l in lines if '"a":"marker"' not in l]
             if p.returncode == 0:
                 open(out, "a").write("".join(lines))
                 self.log("harness %s[%d]: ok %s" % (cmd, i, p.stderr.strip()[-120:]))
                 break
             # crashed: which behaviour was running?
             last = None
-            for l in reversed(lines):
-                if '"a":"reset"' in l:
+            for l in reversed(marked):
+                if '"a":"reset"' in l or '"a":"marker"' in l:
                     last = json.loads(l).get("t")
                     break
             ids = [b.get("id") for b in rest]
